@@ -366,6 +366,12 @@ func buildJPEG(c Case, variant int) Built {
 				segs = append(segs, gen.COM(gen.Payload(40+variant, 3, true)))
 			case k == "dri":
 				segs = append(segs, gen.DRI(uint16(4+variant)))
+			case k == "fill": // fill bytes ahead of whatever marker comes next (T.81 B.1.1.2)
+				segs = append(segs, gen.Fill(1+variant%3))
+			case k == "fillcom": // ... and ahead of a comment
+				c := gen.COM(gen.Payload(9+variant, 4, true))
+				c.Fill = 2
+				segs = append(segs, c)
 			case k == "app2short": // APP2 that is not an ICC segment and shorter than the 12-byte identifier
 				segs = append(segs, gen.APP(2, []byte("MPF")))
 			case k == "app2empty":
